@@ -31,7 +31,7 @@ def vep_rows(rng, ref):
                 t0, t1 = gene.end - tx.exons[-1][1], gene.end - tx.exons[0][0]
             for _ in range(rng.randint(2, 6)):
                 kind = rng.choice(['snv', 'snv', 'del', 'ins', 'ins1', 'mnv'])
-                where = rng.choice(['in', 'in', 'in', 'first', 'last', 'start-edge', 'end-edge'])
+                where = rng.choice(['in', 'in', 'in', 'first', 'last', 'start-edge', 'end-edge', 'upstream'])
                 L = rng.randint(1, 4) if kind in ('del',) else (rng.randint(3, 5) if kind == 'mnv' else 1)
                 if where == 'first':
                     p = t0
@@ -41,6 +41,18 @@ def vep_rows(rng, ref):
                     p = t0 + rng.randint(0, 2)
                 elif where == 'end-edge':
                     p = t1 - L - rng.randint(0, 2)
+                elif where == 'upstream':
+                    # wholly before the first transcribed base of THIS transcript, or spanning it - still inside the gene (the
+                    # transcript starts inside its gene: alternative first exon)
+                    k = rng.randint(1, 4)
+                    if gene.strand == 1:
+                        p = t0 - k
+                        if p < gene.start + 1:
+                            continue
+                    else:
+                        p = t1 - L + k
+                        if p + L > gene.end - 1:
+                            continue
                 else:
                     p = rng.randint(t0 + 2, max(t0 + 2, t1 - L - 2))
                 if p < 1 or p + L + 1 >= len(chrom):
@@ -96,6 +108,23 @@ def run_case(spec):
     ref = refgen.make_reference(rng, n_genes=rng.randint(1, 4), isoforms=(1, 3), n_chroms=rng.randint(1, 2), nf_p=0.3,
                                 min_exons=1, max_exons=4, exon_len=(15, 80), intron_len=(10, 50),
                                 overlap_p=0.35 if spec.get('overlap', True) else 0.0)
+    # secondary isoforms that start INSIDE the gene and are tagged cds_start_NF (incomplete 5' end, CDS from their first bases)
+    from harness.model.seqmodel import translate as _tr
+    for g_ in ref.genes:
+        for t_ in g_.txs[1:]:
+            if t_.coding or t_.exons[0][0] == 0 or rng.random() < 0.5:
+                continue
+            sq_ = ref.tx_seq(t_)
+            fr_ = rng.randint(0, 2)
+            aa_ = _tr(sq_[fr_:])
+            k_ = aa_.find('*')
+            if k_ == -1:
+                k_ = len(aa_)
+                t_.mrna_end_nf = True
+            if k_ < 5:
+                t_.mrna_end_nf = False
+                continue
+            t_.coding, t_.cds, t_.cds_start_nf, t_.biotype = True, (fr_, fr_ + 3 * k_), True, 'protein_coding'
     wd = drivers.case_dir('c14-')
     viol = []
     counters = {'cases': 1}
@@ -114,7 +143,7 @@ def run_case(spec):
         lines = [vep_line(ev, i) for i, ev in enumerate(events)]
         n_ok = n_rej = 0
         import io
-        recs = list(VEPParser.parse(io.StringIO('\n'.join(lines) + '\n')))
+        recs = list(VEPParser.parse(io.StringIO('\n'.join(lines) + '\n'))) if lines else []
         for ev, rec in zip(events, recs):
             gene, tx = ev['gene'], ev['tx']
             gs = ref.gene_seq(gene)
@@ -135,6 +164,16 @@ def run_case(spec):
                 bad('vep-conversion-crash', f'{ev["kind"]} {ev["where"]} {ev["loc"]} {ev["allele"]} strand {gene.strand}: {type(ex).__name__}: {ex}')
                 continue
             n_ok += 1
+            # an event with changed bases before the first transcribed base of the named transcript must be rejected
+            # (an insertion exactly at the boundary is left open)
+            up = (s < ev['t0']) if gene.strand == 1 else (e > ev['t1'])
+            if e == s:
+                up = (s < ev['t0']) if gene.strand == 1 else (s > ev['t1'])
+            if up:
+                bad('vep-upstream-event-accepted', f'{ev["kind"]} {ev["loc"]} {ev["allele"]} on {tx.id} (strand {gene.strand}, transcript range '
+                                                   f'{ev["t0"]}-{ev["t1"]}, cds_start_NF={tx.cds_start_nf}): a record was emitted for an event that '
+                                                   f'starts before the first base of the transcript')
+                continue
             st, en = int(v.location.start), int(v.location.end)
             if gs[st:en] != v.ref:
                 bad('vep-ref-mismatch', f'{ev["kind"]} {ev["where"]} {ev["loc"]} {ev["allele"]} strand {gene.strand}: REF {v.ref} but gene[{st}:{en}]={gs[st:en]}')
@@ -149,7 +188,7 @@ def run_case(spec):
         counters['vep_rejected'] = n_rej
         # CLI (plain and gz): record count / ids consistent with the API pass
         vp = Path(wd) / ('in.tsv.gz' if rng.random() < 0.5 else 'in.tsv')
-        data = '#Uploaded_variation\tLocation\n' + '\n'.join(lines) + '\n'
+        data = '#Uploaded_variation\tLocation\n' + ''.join(l + '\n' for l in lines)
         if vp.suffix == '.gz':
             with gzip.open(vp, 'wt') as fh:
                 fh.write(data)
